@@ -124,8 +124,9 @@ def check_case(case):
         gcmp = got
     if got != want:
         dash_year = sep == "-" and written[-1] == "Y" and not hm and ("%04d" % y) in neg_offsets()
-        if dash_year:
-            b = "dash-year-read-as-utc-offset"
+        if dash_year and got is not None and got.tzinfo is not None and got.utcoffset() == -dt.timedelta(
+                hours=int(("%04d" % y)[:2]), minutes=int(("%04d" % y)[2:])):
+            b = "dash-year-read-as-utc-offset"  # the recorded finding: '-YYYY' consumed as the offset -HH:MM
         else:
             b = "%s:%s:sep%s:%s" % ("A" if explicit else "B", eff, sep, "none" if got is None else "wrong")
         return {"ok": False, "bucket": b,
